@@ -52,7 +52,7 @@ def loop_source(loop: ast.For) -> Tuple[Optional[str], Optional[ast.AST], Option
     return None, sl, idx
 
 
-LATER_RULES = ' Later rule: (R10.9) a rule that moves a definition and rewrites its references uses one transaction value. (R10.10) no single rewrite of an accepted transaction is refused on an ignore test against the partly rewritten text.'
+LATER_RULES = ' Later rule: (R10.9) a rule that moves a definition and rewrites its references uses one transaction value. (R10.11) the numbers the scheduler gives to unnumbered rewrites stay apart from the numbers rules choose; (R10.10) no single rewrite of an accepted transaction is refused on an ignore test against the partly rewritten text.'
 
 
 def check(prog: Program, tier: str) -> Result:
@@ -155,7 +155,8 @@ def check(prog: Program, tier: str) -> Result:
     # ---------------------------------------------------------------- R10.8 precedence order
     _check_precedence(prog, res, S)
     _r10_9(prog, res)
-    res.floors.update({"R10.1": 1, "R10.2": 2, "R10.3": 2, "R10.4": 3, "R10.5": 3, "R10.6": 1, "R10.7": 2, "R10.8": 2, "R10.9": 1, "R10.10": 1})
+    _r10_11(prog, res, S)
+    res.floors.update({"R10.1": 1, "R10.2": 2, "R10.3": 2, "R10.4": 3, "R10.5": 3, "R10.6": 1, "R10.7": 2, "R10.8": 2, "R10.9": 1, "R10.10": 1, "R10.11": 1})
     res.analysed.update({"insertion_sites": len(S.inserts), "returned_collection": S.R})
     return res
 
@@ -624,6 +625,59 @@ def _check_apply(prog, res, S: Scheduler) -> None:
         init_ok = all(isinstance(v, ast.Name) and v.id == text_p for v in inits) and bool(inits) or T == text_p
         res.decide(init_ok, "R10.4", ap.loc(threaded), ap.fq, f"threaded text {T}",
                    "starts from the input text" if init_ok else f"'{T}' does not start from the input parameter '{text_p}'")
+
+
+def _r10_11(prog, res, S: Scheduler) -> None:
+    """A rewrite that comes without a transaction number is a transaction of its own.  The scheduler numbers those itself, and the
+    numbers must not meet the ones rules choose (0, 1, 2, ..): a rule that yields both kinds would see its third unnumbered
+    rewrite merged into its own transaction 2, dropped with it or dragging it down.  The numbers are kept apart by starting the
+    scheduler's counter far below zero.  Obligation: the default number is drawn from a counter whose start is a negative constant
+    of large magnitude (<= -10**6), stepped upwards by 1; anything else that can be read is a violation, what cannot be read is undecided."""
+    fn = S.fn
+    fill = [f for f in prog.funcs.values() if f.mod.name == fn.mod.name and f.qual.startswith(fn.qual + ".<locals>.")]
+    site = None
+    for g in fill:
+        for a in walk_own(g.node):
+            if isinstance(a, ast.Assign) and isinstance(a.targets[0], ast.Name) and not isinstance(a.value, (ast.Tuple, ast.Name)):
+                p_ = parent(a)
+                # inside the branch for 2-tuples: `len(tup) == 2`
+                while p_ is not None and p_ is not g.node and not (isinstance(p_, ast.If) and "== 2" in norm(p_.test)):
+                    p_ = parent(p_)
+                if isinstance(p_, ast.If) and any(a is x for x in ast.walk(p_) if not any(a is y for o in p_.orelse for y in ast.walk(o))):
+                    site = (g, a)
+    if site is None:
+        res.undecided("R10.11", fn.loc(), fn.fq, "default transaction numbers", "the branch for rewrites without a number was not found")
+        return
+    g, a = site
+    v = a.value
+    start = None
+    how = None
+    if isinstance(v, ast.Subscript) and isinstance(v.value, ast.Name):
+        for f_ in (g, fn):
+            for _s, d in __import__("sa.defuse", fromlist=["bindings"]).bindings(f_).get(v.value.id, []):
+                if isinstance(d, ast.Dict) and d.values:
+                    try:
+                        start = ast.literal_eval(d.values[0])
+                        how = f"{v.value.id} = {norm(d)}"
+                    except Exception:
+                        pass
+    elif isinstance(v, ast.Call) and isinstance(v.func, ast.Name) and v.func.id == "next" and v.args and isinstance(v.args[0], ast.Name):
+        for f_ in (g, fn):
+            for _s, d in __import__("sa.defuse", fromlist=["bindings"]).bindings(f_).get(v.args[0].id, []):
+                if isinstance(d, ast.Call) and norm(d.func).endswith("count"):
+                    try:
+                        start = ast.literal_eval(d.args[0]) if d.args else next((ast.literal_eval(k.value) for k in d.keywords if k.arg == "start"), 0)
+                        how = f"{v.args[0].id} = {norm(d)}"
+                    except Exception:
+                        pass
+    if start is None or not isinstance(start, int):
+        res.undecided("R10.11", g.loc(a), g.fq, f"{short(a, 60)} # default transaction numbers", "where the number comes from cannot be read")
+        return
+    ok = start <= -10**6
+    res.decide(ok, "R10.11", g.loc(a), g.fq, f"{short(a, 60)} # default transaction numbers",
+               f"counted up from {start}: apart from the numbers rules choose" if ok else
+               f"counted up from {start} ({how}): the same numbers rules choose for their transactions - the k-th unnumbered rewrite of a rule is merged into its transaction k "
+               "(simplify_constrained_range yields both kinds)")
 
 
 def _r10_10(prog, res, ap: Func, call: ast.Call) -> None:
